@@ -2,6 +2,7 @@ import Vanguard.Model.Basic
 import Vanguard.Model.Codes
 import Vanguard.Model.Percent
 import Vanguard.Model.Timeout
+import Vanguard.Model.Router
 /-!
   Line protocol: one operation per line, `op arg …` (byte strings in hex, `-` = empty,
   numbers in decimal); one canonical result per line.  The Go harness prints the
@@ -33,6 +34,29 @@ def showExtracted : Extracted → String
   | some none => "none"
   | some (some d) => s!"some {d}"
 
+def parseMode (m : String) : PathMode := if m == "multi" then .multi else .single
+
+def showVars (vs : List PVar) : String :=
+  if vs.isEmpty then "-" else
+  ",".intercalate (vs.map fun v =>
+    s!"{toHex v.fieldPath}:{v.start}:{match v.stop with | some e => toString e | none => "-1"}")
+
+/-- rules text: lines `METHOD SP template`. -/
+def parseRules (b : Bytes) : List (Bytes × Bytes) :=
+  (splitOnByte 0x0A b).map fun line => (line.takeWhile (· != 0x20), (line.dropWhile (· != 0x20)).drop 1)
+
+def insertSorted (x : Bytes) : List Bytes → List Bytes
+  | [] => [x]
+  | y :: ys => if compareOfLessAndEq x y != .gt then x :: y :: ys else y :: insertSorted x ys
+
+def sortBytes (l : List Bytes) : List Bytes := l.foldr insertSorted []
+
+def showMatch : MatchRes → String
+  | .found idx vars => String.intercalate " " (s!"found {idx}" :: vars.map toHex)
+  | .allow ms => "allow " ++ toHex (joinWith 0x2C (sortBytes ms))
+  | .none => "none"
+  | .panic => "panic"
+
 def dispatch : List String → String
   | ["status_from_rpc", n] => match n.toNat? with
       | some k => optNat (httpStatusFromRPC k)
@@ -54,6 +78,18 @@ def dispatch : List String → String
   | ["grpc_enc", n] => withInt n fun k => toHex (grpcEncodeTimeout k)
   | ["connect_extract", h] => withHex h fun b => showExtracted (connectExtractTimeout b)
   | ["connect_enc", n] => withInt n fun k => toHex (connectEncodeTimeout k)
+  | ["path_escape", m, h] => withHex h fun b => toHex (pathEscape (parseMode m) b)
+  | ["path_unescape", m, h] => withHex h fun b => optBytes (pathUnescape (parseMode m) b)
+  | ["tmpl_parse", h] => withHex h fun b => match parseTemplate b with
+      | none => "err"
+      | some t => s!"ok {toHex (joinWith 0x2F t.segs)} {toHex t.verb} {showVars t.vars}"
+  | ["route", rules, path, method] =>
+    match fromHex rules, fromHex path, fromHex method with
+    | some rs, some p, some m =>
+      match addRoutes 0 [] (parseRules rs) with
+      | .error i => s!"reject {i}"
+      | .ok routes => showMatch (routeMatch routes p m)
+    | _, _, _ => "bad-arg"
   | _ => "bad-op"
 
 end Vanguard.Driver
